@@ -181,12 +181,17 @@ def layout_leaf(k, gap1, gap2, nl1, nl2, c1, c2, pos=1):
     if sep2 == '':
         sep2 = ' '
     src = [lex + sep1 + 'x' + sep2 + ', 2', 'select' + sep1 + lex + sep2 + 'x, 2', 'select' + sep1 + 'x,' + sep2 + lex][pos]
+    return _verbatim(src)
+
+
+def _verbatim(src):
     toks = list(MindsDBLexer().tokenize(src))
     out = tokens_to_string(toks)
-    # every token's source text must occur verbatim, in order, in the stored text, separated only by whitespace
+    # every token's source text (the slice of the source the lexer matched, not what the token says about itself) must occur verbatim,
+    # in order, in the stored text, separated only by whitespace
     pos = 0
     for t in toks:
-        raw = getattr(t.value, 'raw', None) or str(t.value)
+        raw = src[t.index:t.end]
         while pos < len(out) and out[pos] in ' \t\r\n':
             pos += 1
         if not out.startswith(raw, pos):
@@ -197,6 +202,39 @@ def layout_leaf(k, gap1, gap2, nl1, nl2, c1, c2, pos=1):
     # and the stored text tokenises to the same decoded values
     toks2 = list(MindsDBLexer().tokenize(out))
     return [(t.type, str(t.value)) for t in toks2] == [(t.type, str(t.value)) for t in toks]
+
+
+# two value tokens in one inner query, including different spellings of the same value (quote style, escape style, sigils, number spelling)
+PAIR_LEXEMES = LEXEMES + ["'O''Neil'", "'O\\'Neil'", '"O\'Neil"', "@'my var'", '@"my var"', '@@autocommit', '@autocommit', "'x'", '"x"', '@x', '@@x',
+                          '1.5', '7', '""', "'1.5'", "'@x'", 'x', '`x`', '"a b"', "'a b'"]
+
+
+def pair_leaf(ka, kb, gap, nl):
+    a, b = PAIR_LEXEMES[ka], PAIR_LEXEMES[kb]
+    sep = ' ' * gap + ('\n' if nl else '')
+    return _verbatim('select ' + a + sep + ',' + sep + ' ' + b + ' from t') and _verbatim('select f(' + b + ', ' + a + ') from t where c = ' + a)
+
+
+def pair(ka: int, kb: int, gap: int, nl: bool) -> bool:
+    """
+    pre: 0 <= ka < NPAIR and 0 <= kb < NPAIR and 0 <= gap <= 1
+    post: _
+    """
+    ka, kb, gap = _ci(ka, NPAIR - 1), _ci(kb, NPAIR - 1), _ci(gap, 1)
+    nl = True if nl else False
+    with NoTracing():
+        return pair_leaf(ka, kb, gap, nl)
+
+
+def pair_reach(ka: int, kb: int, gap: int, nl: bool) -> bool:
+    """
+    pre: 0 <= ka < NPAIR and 0 <= kb < NPAIR and 0 <= gap <= 1
+    post: False
+    """
+    return pair(ka, kb, gap, nl)
+
+
+NPAIR = len(PAIR_LEXEMES)
 
 
 def _layout_at(k, gap1, gap2, nl1, nl2, c1, c2, pos):
